@@ -29,6 +29,7 @@ def run(prog, rep):
     n += e5.check_writers(prog, rep, "E5", "tsg::graph::Attributes", "values", {("add", "entry")},
                           "attribute values change only through Attributes::add")
     rep.floor("E5", n, 4, "container mutation sites")
+    e5.no_dropped_elements(prog, rep)
     # whole-attribute-set assignments
     for owner in ("tsg::graph::Edge", "tsg::graph::GraphNode"):
         for f, kind, op, where, b, st in e5.field_mutations(prog, owner, "attributes"):
